@@ -844,7 +844,7 @@ def provider_oracle(ctx, rig, specs, script):
             ctx.fail(sig, f'{what}: tx {tx} response {r}, reports {rw} (emitted: {word_emitted})', script)
             continue
         if not known:
-            if r != 'Fail' or rw or not resps[0][3]:
+            if r != 'Fail' or rw:
                 ctx.fail('invocation:unknown-operation', f'{what}: response {resps[0]}, reports {rw}', script)
             if spec.get('snap_ok') is False:
                 ctx.fail('invocation:unknown-operation-touched-mdib', f'{what}: MDIB / handler executions changed', script)
